@@ -335,7 +335,12 @@ func (m *Module) AssignGlobalIDs() error {
 				got := n.ID()
 				return errors.Errorf("invalid global ID, expected %s, got %s", enc.GlobalID(want), enc.GlobalID(got))
 			}
-			n.SetID(id)
+			// Only store the ID if it changes; concurrent printers read the ID
+			// without holding m.mu, and an unconditional store of the same value
+			// would be a data race with those reads.
+			if n.ID() != id {
+				n.SetID(id)
+			}
 			id++
 		}
 		return nil
